@@ -1774,3 +1774,231 @@ Proof.
   split; [destruct generated_tick_sources as [H1 H2]; split; [exact H1|split; [exact H2|reflexivity]]|].
   split; [exact generated_tick_program|exact tick_under_bar_paths].
 Qed.
+
+(* ------------------------------------------------------------ the ticker automaton and the generated loop body *)
+Lemma tacc_eqb_eq : forall x y, tacc_eqb x y = true -> x = y.
+Proof. destruct x, y; simpl; intro H; try discriminate; reflexivity. Qed.
+
+Lemma arun_tproj : forall w s, arun acc_step s w = arun acc_step s (tproj w).
+Proof.
+  induction w as [|a w IH]; intro s; [reflexivity|].
+  unfold tproj. simpl. destruct (tk_relevant a) eqn:E.
+  - simpl. destruct (acc_step a s); [apply IH|reflexivity].
+  - unfold acc_step at 1. rewrite E. simpl. apply IH.
+Qed.
+
+Lemma tproj_relevant : forall w, Forall (fun a => tk_relevant a = true) (tproj w).
+Proof.
+  intro w. apply Forall_forall. intros a Hin. unfold tproj in Hin. apply filter_In in Hin. apply Hin.
+Qed.
+
+Tactic Notation "dfa_inv" hyp(Hr) hyp(H) "as" ident(R2) :=
+  match type of Hr with
+  | Forall _ (?a :: _) =>
+      let R1 := fresh "Rel" in
+      inversion Hr as [|? ? R1 R2]; subst; clear Hr;
+      destruct a as [[]|[]|[]| | | | | | | | ]; simpl in R1, H; try discriminate R1; try discriminate H; clear R1
+  end.
+
+(** from the head of wait_timeout_while: any number of (park, re-acquire), then the release *)
+Lemma dfa_wait_words : forall m w s,
+  List.length w <= m -> Forall (fun a => tk_relevant a = true) w ->
+  arun acc_step A7 w = Some s -> acc_final s = true ->
+  exists n, w = it_waits n ++ [CRel CStop].
+Proof.
+  induction m as [|m IH]; intros w s Hl Hr H Hf.
+  - destruct w; [|simpl in Hl; lia]. simpl in H. injection H as <-. discriminate.
+  - destruct w as [|a w]; [simpl in H; injection H as <-; discriminate|].
+    dfa_inv Hr H as Hr1.
+    + (* CRel CStop: the iteration is over, nothing may follow *)
+      destruct w as [|b w]; [exists 0; reflexivity|].
+      exfalso. dfa_inv Hr1 H as Hr2.
+    + (* CWaitRel CStop, then CAcq CStop *)
+      destruct w as [|b w]; [simpl in H; injection H as <-; discriminate|].
+      dfa_inv Hr1 H as Hr2.
+      simpl in Hl. destruct (IH w s ltac:(lia) Hr2 H Hf) as (n & ->).
+      exists (S n). reflexivity.
+Qed.
+
+(** the words of one iteration accepted by the acceptor are exactly the three families *)
+Lemma dfa_words : forall w s,
+  Forall (fun a => tk_relevant a = true) w ->
+  arun acc_step A0 w = Some s -> acc_final s = true ->
+  w = it_upgrade_fails \/ w = it_finished \/ exists n, w = it_tick n.
+Proof.
+  intros w s Hr H Hf.
+  destruct w as [|a1 w]; [simpl in H; injection H as <-; discriminate|]. dfa_inv Hr H as Hr1.
+  destruct w as [|a2 w]; [left; reflexivity|]. dfa_inv Hr1 H as Hr2.
+  destruct w as [|a3 w]; [simpl in H; injection H as <-; discriminate|]. dfa_inv Hr2 H as Hr3.
+  - (* finished: CRel CBar, CDropArc *)
+    destruct w as [|a4 w]; [simpl in H; injection H as <-; discriminate|]. dfa_inv Hr3 H as Hr4.
+    destruct w as [|a5 w]; [right; left; reflexivity|]. exfalso. dfa_inv Hr4 H as Hr5.
+  - (* CTick, CRel CBar, CDropArc, CAcq CStop, waits *)
+    destruct w as [|a4 w]; [simpl in H; injection H as <-; discriminate|]. dfa_inv Hr3 H as Hr4.
+    destruct w as [|a5 w]; [simpl in H; injection H as <-; discriminate|]. dfa_inv Hr4 H as Hr5.
+    destruct w as [|a6 w]; [simpl in H; injection H as <-; discriminate|]. dfa_inv Hr5 H as Hr6.
+    destruct (dfa_wait_words (List.length w) w s (le_n _) Hr6 H Hf) as (n & ->).
+    right. right. exists n. reflexivity.
+Qed.
+
+Lemma lrun_ev_app : forall l1 l2 s e1 s1 e2 s2,
+  lrun_ev l1 s = Some (e1, s1) -> lrun_ev l2 s1 = Some (e2, s2) ->
+  lrun_ev (l1 ++ l2) s = Some (e1 ++ e2, s2).
+Proof.
+  induction l1 as [|l l1 IH]; intros l2 s e1 s1 e2 s2 H1 H2; simpl in *.
+  - injection H1 as <- <-. exact H2.
+  - destruct (lstep l s) as [sa|]; [|discriminate].
+    destruct (lrun_ev l1 sa) as [[ea sb]|] eqn:E; [|discriminate]. injection H1 as <- <-.
+    rewrite (IH l2 sa ea sb e2 s2 E H2). rewrite app_assoc. reflexivity.
+Qed.
+
+(** the automaton runs that produce the three families *)
+Definition wait_round : list label := [LT false; LWake; LT false].
+Fixpoint wait_rounds (n : nat) : list label :=
+  match n with O => [] | S m => wait_round ++ wait_rounds m end.
+Definition run_tick (n : nat) : list label :=
+  [LT false; LT false; LT false; LT false; LT false; LT false; LT false] ++ wait_rounds n ++ [LT true; LT false].
+Definition at_check_stop : tsys :=
+  {| pc := TCheckStop; flag := false; owed := false; fin := false; strong := 1; tarc := false;
+     barl := Free; stopl := ByTicker; nticks := 1; iters := 1 |}.
+
+Lemma wait_rounds_run : forall n, lrun_ev (wait_rounds n) at_check_stop = Some (it_waits n, at_check_stop).
+Proof.
+  induction n as [|n IH]; [reflexivity|].
+  change (wait_rounds (S n)) with (wait_round ++ wait_rounds n).
+  change (it_waits (S n)) with ([CWaitRel CStop; CAcq CStop] ++ it_waits n).
+  eapply lrun_ev_app; [vm_compute; reflexivity|exact IH].
+Qed.
+
+Lemma run_tick_ok : forall n, exists s',
+  lrun_ev (run_tick n) (tinit false 1 false) = Some (it_tick n, s') /\ iters s' = 1 /\ pc s' = TUpgrade.
+Proof.
+  intro n. eexists. split.
+  - unfold run_tick, it_tick.
+    eapply lrun_ev_app; [vm_compute; reflexivity|].
+    eapply lrun_ev_app; [apply wait_rounds_run|vm_compute; reflexivity].
+  - split; reflexivity.
+Qed.
+
+(** an automaton run of exactly one loop iteration, started by a freshly spawned ticker, with its events *)
+Definition automaton_iteration (ev : list caction) : Prop :=
+  exists fi st ls s',
+    lrun_ev ls (tinit fi st false) = Some (ev, s') /\
+    iters s' = 1 /\ (pc s' = TUpgrade \/ pc s' = TDone).
+
+Lemma families_are_iterations :
+  automaton_iteration it_upgrade_fails /\ automaton_iteration it_finished /\
+  forall n, automaton_iteration (it_tick n).
+Proof.
+  split; [|split].
+  - exists false, 0, [LT false]. eexists. split; [vm_compute; reflexivity|]. split; [reflexivity|right; reflexivity].
+  - exists true, 1, [LT false; LT false; LT false; LT false; LT false]. eexists.
+    split; [vm_compute; reflexivity|]. split; [reflexivity|right; reflexivity].
+  - intro n. destruct (run_tick_ok n) as (s' & H & Hi & Hp).
+    exists false, 1, (run_tick n), s'. split; [exact H|]. split; [exact Hi|left; exact Hp].
+Qed.
+
+(** every path of a loop body accepted by [ticker_body_refines] is, after erasing the MultiState lock and
+    the callbacks, the event sequence of one loop iteration of the ticker automaton *)
+Theorem ticker_refines_sound : forall b, ticker_body_refines b = true ->
+  forall tr, paths b tr -> automaton_iteration (tproj tr).
+Proof.
+  intros b H tr Hp. unfold ticker_body_refines in H.
+  destruct (acheck tacc_eqb acc_step b [A0]) as [outs|] eqn:E; [|discriminate].
+  destruct (acheck_sound tacc tacc_eqb tacc_eqb_eq acc_step b [A0] outs E A0 tr (or_introl eq_refl) Hp)
+    as (s' & R & I).
+  rewrite forallb_forall in H. specialize (H s' I).
+  rewrite arun_tproj in R.
+  destruct families_are_iterations as (FA & FB & FC).
+  destruct (dfa_words (tproj tr) s' (tproj_relevant tr) R H) as [->|[->|(n & ->)]];
+    [exact FA|exact FB|apply FC].
+Qed.
+
+Lemma generated_ticker_refines :
+  exists body, ticker_prog = PLoop body /\ ticker_body_refines body = true.
+Proof. eexists. split; [reflexivity|vm_compute; reflexivity]. Qed.
+
+(** bounded enumeration is sound: everything [enum_k] lists is a path *)
+Lemma enum_k_sound : forall k p tr, In tr (enum_k k p) -> paths p tr.
+Proof.
+  intros k. induction p as [a|l IHl|alts IHa|b IHb|c IHc] using cprog_ind'; intros tr Hin.
+  - simpl in Hin. destruct Hin as [<-|[]]. constructor.
+  - simpl in Hin.
+    assert (G : exists trs, Forall2 paths l trs /\ tr = List.concat trs).
+    { revert tr Hin. induction l as [|q r IHr]; intros tr Hin.
+      - destruct Hin as [<-|[]]. exists []. split; [constructor|reflexivity].
+      - inversion IHl as [|? ? IHq IHl']; subst.
+        apply in_flat_map in Hin. destruct Hin as (t1 & H1 & H2).
+        apply in_map_iff in H2. destruct H2 as (t2 & <- & H2).
+        destruct (IHr IHl' t2 H2) as (trs & HF & ->).
+        exists (t1 :: trs). split; [constructor; [apply IHq; exact H1|exact HF]|reflexivity]. }
+    destruct G as (trs & HF & ->). constructor. exact HF.
+  - simpl in Hin. induction alts as [|q r IHr]; [contradiction|].
+    inversion IHa as [|? ? IHq IHa']; subst. apply in_app_or in Hin. destruct Hin as [Hin|Hin].
+    + eapply pa_branch; [left; reflexivity|apply IHq; exact Hin].
+    + specialize (IHr IHa' Hin). inversion IHr; subst. eapply pa_branch; [right; eassumption|assumption].
+  - simpl in Hin.
+    assert (G : forall n tr,
+      In tr ((fix it (n : nat) : list (list caction) :=
+                match n with
+                | O => [[]]
+                | S m => [[]] ++ flat_map (fun t1 => map (fun t2 => t1 ++ t2) (it m)) (enum_k k b)
+                end) n) -> exists trs, Forall (paths b) trs /\ tr = List.concat trs).
+    { induction n as [|m IHm]; intros t Ht.
+      - destruct Ht as [<-|[]]. exists []. split; [constructor|reflexivity].
+      - destruct Ht as [<-|Ht]; [exists []; split; [constructor|reflexivity]|].
+        apply in_flat_map in Ht. destruct Ht as (t1 & H1 & H2).
+        apply in_map_iff in H2. destruct H2 as (t2 & <- & H2).
+        destruct (IHm t2 H2) as (trs & HF & ->).
+        exists (t1 :: trs). split; [constructor; [apply IHb; exact H1|exact HF]|reflexivity]. }
+    destruct (G k tr Hin) as (trs & HF & ->). constructor. exact HF.
+  - simpl in Hin. constructor. apply IHc. exact Hin.
+Qed.
+
+(** converse, bounded: the iteration traces of the automaton with at most 3 waits are projections of paths of
+    the generated loop body (the automaton does not invent an event sequence), by enumeration *)
+Definition fam_upto (k : nat) : list (list caction) :=
+  it_upgrade_fails :: it_finished :: map it_tick (seq 0 (S k)).
+Definition body_covers (k : nat) (b : cprog) : bool :=
+  forallb (fun w => existsb (fun tr => list_eqb caction_eqb (tproj tr) w) (enum_k k b)) (fam_upto k).
+
+Lemma caction_eqb_eq : forall x y, caction_eqb x y = true -> x = y.
+Proof.
+  destruct x, y; simpl; intro H; try discriminate; try reflexivity; apply cres_eqb_eq in H; subst; reflexivity.
+Qed.
+
+Lemma list_caction_eqb_eq : forall x y, list_eqb caction_eqb x y = true -> x = y.
+Proof.
+  induction x as [|a x IH]; destruct y as [|b y]; simpl; intro H; try discriminate; [reflexivity|].
+  apply andb_prop in H. destruct H as [H1 H2]. apply caction_eqb_eq in H1. subst. rewrite (IH y H2). reflexivity.
+Qed.
+
+Lemma body_covers_sound : forall k b, body_covers k b = true ->
+  forall w, In w (fam_upto k) -> exists tr, paths b tr /\ tproj tr = w.
+Proof.
+  intros k b H w Hw. unfold body_covers in H. rewrite forallb_forall in H. specialize (H w Hw).
+  apply existsb_exists in H. destruct H as (tr & Hin & He).
+  exists tr. split; [eapply enum_k_sound; exact Hin|apply list_caction_eqb_eq; exact He].
+Qed.
+
+Lemma generated_body_covers : exists body, ticker_prog = PLoop body /\ body_covers 3 body = true.
+Proof. eexists. split; [reflexivity|vm_compute; reflexivity]. Qed.
+
+(** the refinement statement exported as C08_ticker_automaton_refines_generated_partial *)
+Theorem ticker_automaton_refines_generated :
+  exists body, ticker_prog = PLoop body /\
+    (* every path of the generated loop body is, modulo [tproj], one iteration of the automaton *)
+    (forall tr, paths body tr -> automaton_iteration (tproj tr)) /\
+    (* the three families of event sequences are produced by automaton runs of one iteration, for every
+       number n of (park, re-acquire) rounds ... *)
+    (automaton_iteration it_upgrade_fails /\ automaton_iteration it_finished /\
+     forall n, automaton_iteration (it_tick n)) /\
+    (* ... and those with at most 3 waits are projections of paths of the generated loop body *)
+    (forall w, In w (fam_upto 3) -> exists tr, paths body tr /\ tproj tr = w).
+Proof.
+  destruct generated_ticker_refines as (b1 & E1 & H1).
+  destruct generated_body_covers as (b2 & E2 & H2).
+  assert (b1 = b2) by congruence. subst b2.
+  exists b1. split; [exact E1|]. split; [apply ticker_refines_sound; exact H1|].
+  split; [exact families_are_iterations|]. apply body_covers_sound. exact H2.
+Qed.
